@@ -53,5 +53,7 @@ SEEDED = [
     ("C17-11", "C17-N4"),
     ("C17-12", "C17-N5"),
     ("C17-13", "C17-N5"),
+    ("C17-14", "C17-TOK"),
+    ("C17-15", "C17-GUARD"),
 ]
 MUTANTS = list(MUTANTS) + [_P("seed-" + sid, _os.path.join(_SEEDS, sid, "patch.diff"), rule) for sid, rule in SEEDED if _os.path.exists(_os.path.join(_SEEDS, sid, "patch.diff"))]
